@@ -688,6 +688,11 @@ def run(fx, tier):
         seen_shape.add(tag)
         v.saw(g)
         prop_list_rules(fx, g, v, str(tag))
+    # "encoding the result again reproduces the same contents": the size every encoder building block announces equals
+    # the bytes it appends (shared with C17) — otherwise a re-encoded packet declares a wrong Remaining/Property Length
+    import effect
+    v.rule('R-EFFECT', 'byte_size() == bytes appended by encode() for every encoder building block; variable_length == to_variable_bytes')
+    effect.run(fx, v, 'C18')
     v.expect_min('R-SCHEMA', 50, 'decoders × (agreement, property class, scope, short form)')
     v.expect_min('R-TABLE', 34, 'wire formats + 27 property identifiers')
     v.expect_min('R-ARITH', 2, 'varint, length-prefixed string')
@@ -822,10 +827,26 @@ def prop_list_rules(fx, g, v, tag):
             'each value is parsed from the shared cursor (captured by reference), within the list, into the selected member; the outcome is reported back (%d member types)' % n5,
             key='C18:R-FLOW:prop_parser:%s:value' % tag, where=where)
     # P6 a failed value or an identifier that is not in the class rejects the packet
-    ok6 = False
-    succ_of_ao = _reach(g, ao[0][0])
+    ok6, why6 = unknown_id_rejected(fx, g, cur, sl, ao[0], lam)
+    v.check(ok6, 'R-FLOW', 'prop_parser<%s>:reject' % tag, why6, key='C18:R-FLOW:prop_parser:%s:reject' % tag, where=where)
+
+
+def unknown_id_rejected(fx, g, cur, sl, ao, lam):
+    """after the dispatch both the value outcome and "nothing consumed since the identifier" are tested, where the
+    snapshot the cursor is compared with is taken AFTER the identifier byte was consumed and BEFORE the dispatch
+    (a snapshot taken before the identifier can never equal the cursor again: unknown identifiers would be skipped)"""
+    D = defs_of(g)
+    dom = g.dominators()
+    succ_of_ao = _reach(g, ao[0])
     rvd = [cp['d'] for cp in (lam.get('caps', []) if isinstance(lam, dict) else []) if cp.get('n') == 'rv']
-    seen_rv = seen_same = False
+    # where the identifier byte is consumed: the (post-)increment of the cursor that feeds the identifier
+    inc = None
+    for b, i, l, c in g.calls():
+        if c.get('op') == '++' and c.get('args') and _is(c['args'][0], cur) and (b == ao[0] and i < ao[1] or b in dom.get(ao[0], set())):
+            inc = (b, i)
+    seen_rv = False
+    snap_ok = False
+    detail = 'no comparison of the cursor with a snapshot'
     for b in succ_of_ao:
         blk = g.blocks[b]
         cond = g.term_cond(b) if blk.term else None
@@ -834,14 +855,33 @@ def prop_list_rules(fx, g, v, tag):
         e = expand(g, cond)
         if rvd and contains(e, lambda n: n.get('k') == 'ref' and n.get('d') == rvd[0]):
             seen_rv = True
-        cm = comparison(e, 'T')
-        if cm and cm[0] in ('==', '!=') and contains([cm[1], cm[2]], lambda n: n.get('k') == 'ref' and n.get('d') == cur):
+        from flow import split_logical
+        for c2, p2 in split_logical(cond, 'T') + split_logical(cond, 'F'):
+            cm = comparison(expand(g, c2), p2)
+            if not (cm and cm[0] in ('==', '!=') and contains([cm[1], cm[2]], lambda n: n.get('k') == 'ref' and n.get('d') == cur)):
+                continue
             other = [s_ for s_ in (cm[1], cm[2]) if not _is(s_, cur)]
-            if other and isinstance(strip(other[0]), dict) and strip(other[0]).get('d') in D.decl and strip(other[0]).get('d') != sl:
-                seen_same = True
-    ok6 = seen_rv and seen_same
-    v.check(ok6, 'R-FLOW', 'prop_parser<%s>:reject' % tag, 'after the dispatch both the value outcome and "nothing consumed" (unknown identifier) are tested',
-            key='C18:R-FLOW:prop_parser:%s:reject' % tag, where=where)
+            sd = strip(other[0]).get('d') if other and isinstance(strip(other[0]), dict) else None
+            if sd is None or sd not in D.decl or sd == sl:
+                continue
+            init = g.resolve(D.decl[sd]) if isinstance(D.decl[sd], dict) else None
+            is_copy = isinstance(init, dict) and init.get('k') == 'ctor' and init.get('copy') and _is(init['args'][0], cur)
+            pos = None
+            for bb, ii, ll, xx in g.elements():
+                if isinstance(xx, dict) and xx.get('k') == 'decls' and any(d_.get('d') == sd for d_ in xx['ds']):
+                    pos = (bb, ii)
+            after_id = inc is not None and pos is not None and ((pos[0] == inc[0] and pos[1] > inc[1]) or (pos[0] != inc[0] and inc[0] in dom.get(pos[0], set())))
+            before_dispatch = pos is not None and ((pos[0] == ao[0] and pos[1] < ao[1]) or (pos[0] != ao[0] and pos[0] in dom.get(ao[0], set())))
+            if is_copy and after_id and before_dispatch and not D.assigned.get(sd):
+                snap_ok = True
+            else:
+                detail = 'the snapshot compared with the cursor is %s' % (
+                    'not a copy of the cursor' if not is_copy else 'taken before the identifier byte is consumed (it can never equal the cursor again)'
+                    if not after_id else 'not taken before the dispatch')
+    ok = seen_rv and snap_ok
+    return ok, ('after the dispatch the value outcome is tested, and the cursor is compared with a snapshot taken after the identifier was '
+                'consumed: an identifier that is not in this property class consumes nothing more and is rejected') if ok else (
+        'value outcome tested: %s; %s' % (seen_rv, detail))
 
 
 def _reach(g, b0):
